@@ -32,7 +32,8 @@ META = {
              'rameters; faults_all: every request x every fault kind; big_'
              'chunk: 4-9 MiB chunks with short / over-long / error replies'
              '.'
-             " Round 12: shards of one scale in different layouts; outdated legacy files beside current .shard files."),
+             " Round 12: shards of one scale in different layouts; outdated legacy files beside current .shard files."
+             " Round 18: the dataset behind the URL generated again while an older accessor is alive."),
     "trusted_base": ["vlib/httpd.py implements docs/serving-data.rst",
                      "requests/urllib3", "vlib/refs/sharded_spec.py writer"],
     "assumptions": ["loopback TCP works in the sandbox", "server faults are "
@@ -232,6 +233,32 @@ def check_case(ctx, case):
                 if acc.file_exists("info") is not True or acc.file_exists(
                         "no/such/file") is not False:
                     ctx.fail("file_exists over HTTP is wrong")
+            if case["kind"] == "shard" and case["seed"] % 3 == 0:
+                # the dataset behind the URL is generated again with another
+                # shard layout and other contents while the first accessor is
+                # still alive; an accessor opened NOW must read today's files
+                import shutil
+                mini, shard, pre = case["bits"]
+                case2 = dict(case, bits=[(mini + 1) % 3, shard,
+                                         (pre + 1) % 3],
+                             seed=case["seed"] + 1)
+                shutil.rmtree(d)
+                d2, truth2 = build_dataset(case2, root)
+                acc2 = accessor.get_accessor_for_url(url)
+                for pos in sorted(truth2):
+                    cc = sc.coords_of(pos, case["cs"], size)
+                    h = fetch_outcome(acc2, sc.KEY, cc)
+                    if h[0] != "ok" or h[1] != truth2[pos]:
+                        ctx.fail("after the dataset behind the URL was "
+                                 "generated again (bits %s -> %s), a newly "
+                                 "opened accessor %s for chunk %s (an older "
+                                 "accessor for the same URL is still alive)"
+                                 % (case["bits"], case2["bits"],
+                                    "fails with %s" % type(h[1]).__name__
+                                    if h[0] != "ok" else "returns other "
+                                    "bytes than the files hold", list(pos)))
+                ctx.count("dataset_regenerated_behind_live_accessor")
+                del acc
         pairs, _ = sc.routing_stats(case)
         return len(pairs)
     finally:
